@@ -140,30 +140,47 @@ def gen_coqproject():
     write_if_changed(os.path.join(COQ, "_CoqProject"), text)
 
 
-def gen_extract_v():
-    """coq/Extract.v is assembled from the fragments coq/Extract.d/*.txt. Fragment syntax:
-         Require: Model.Picker Model.Float53       (modules under Imdl)
-         Extract: Picker.pick Float53.round53      (constants to extract)
-    Only ExtrOcamlBasic is loaded; there is no Extract Constant / Extract Inductive of ours."""
+def extract_fragments():
+    """coq/Extract.d/<name>.txt -> (name, [required modules], [constants])"""
     d = os.path.join(COQ, "Extract.d")
-    reqs, names = [], []
+    out = []
     for fn in sorted(os.listdir(d)) if os.path.isdir(d) else []:
         if not fn.endswith(".txt"):
             continue
+        reqs, names = [], []
         for line in open(os.path.join(d, fn)):
             line = line.strip()
             if line.startswith("Require:"):
                 reqs += [x for x in line[8:].split() if x not in reqs]
             elif line.startswith("Extract:"):
                 names += [x for x in line[8:].split() if x not in names]
+        out.append((fn[:-4], reqs, names))
+    return out
+
+
+BASE_EXTRACT = "N.add N.mul N.div_eucl N.of_nat N.to_nat Z.of_N Z.to_N Z.opp Z.of_nat Z.to_nat"
+
+
+def gen_extract_v():
+    """coq/Extract.v is assembled from the fragments coq/Extract.d/<name>.txt. Fragment syntax:
+         Require: Model.Picker Model.Float53       (modules under Imdl)
+         Extract: Picker.pick Float53.round53      (constants to extract)
+    Each fragment is extracted on its own into runner/gen/m_<name>.ml (self-contained, so names
+    of different models can never clash); runner/driver.d/<name>.ml is compiled against it.
+    Only ExtrOcamlBasic is loaded; there is no Extract Constant / Extract Inductive of ours."""
+    frags = extract_fragments()
+    reqs = []
+    for _, r, _ in frags:
+        reqs += [x for x in r if x not in reqs]
+    os.makedirs(os.path.join(VERIF, "runner", "gen"), exist_ok=True)
     text = ("(** GENERATED by tools/lib.py from coq/Extract.d/*.txt - do not edit.\n"
             "    Extraction of the executable models for the correspondence runs. ExtrOcamlBasic only:\n"
             "    bool, option, unit, list, prod, sumbool, sumor map to OCaml's; no Extract Constant;\n"
-            "    N / Z / positive / nat stay Coq inductives. *)\n"
+            "    N / Z / positive / nat stay Coq inductives. One self-contained OCaml file per fragment. *)\n"
             "From Coq Require Import NArith ZArith List.\nFrom Coq Require Extraction ExtrOcamlBasic.\n"
-            "From Imdl Require Import %s.\n\nExtraction Language OCaml.\n"
-            "Extraction \"../runner/model.ml\"\n  N.add N.mul N.div_eucl N.of_nat N.to_nat Z.of_N Z.to_N Z.opp Z.of_nat Z.to_nat\n  %s.\n"
-            % (" ".join(reqs), "\n  ".join(names)))
+            "From Imdl Require %s.\n\nExtraction Language OCaml.\n" % " ".join(reqs))
+    for name, _, names in frags:
+        text += "Extraction \"../runner/gen/m_%s.ml\"\n  %s\n  %s.\n" % (name, BASE_EXTRACT, "\n  ".join(names))
     write_if_changed(os.path.join(COQ, "Extract.v"), text)
 
 
@@ -233,33 +250,39 @@ def _end_line(src, name):
 
 
 def ensure_runner():
-    """Extract the model (coq/Extract.v -> runner/model.ml) and build .cache/modelrun."""
+    """Extract the models (coq/Extract.v -> runner/gen/m_<name>.ml) and build .cache/runner/modelrun.
+    Each driver fragment runner/driver.d/<name>.ml is compiled as its own unit
+    `open M_<name>` + runner/driver_base.ml + the fragment, and registers its handlers in Registry."""
     ok, out = coq_make(["Extract.vo"])
     if not ok:
         return None, out
     with Lock("ocaml"):
         rdir = os.path.join(VERIF, "runner")
+        gdir = os.path.join(rdir, "gen")
         bdir = os.path.join(CACHE, "runner")
         os.makedirs(bdir, exist_ok=True)
         exe = os.path.join(bdir, "modelrun")
-        frag_dir = os.path.join(rdir, "driver.d")
-        frags = sorted(f for f in os.listdir(frag_dir) if f.endswith(".ml")) if os.path.isdir(frag_dir) else []
-        drv = open(os.path.join(rdir, "driver_base.ml")).read()
-        for f in frags:
-            drv += "\n(* ---- driver.d/%s ---- *)\n" % f + open(os.path.join(frag_dir, f)).read()
-        drv += "\n" + open(os.path.join(rdir, "driver_main.ml")).read()
-        write_if_changed(os.path.join(bdir, "driver_gen.ml"), drv)
-        shutil.copy(os.path.join(bdir, "driver_gen.ml"), os.path.join(bdir, "driver.ml"))
-        srcs = [os.path.join(rdir, "model.mli"), os.path.join(rdir, "model.ml"), os.path.join(bdir, "driver.ml")]
-        stamp = hashlib.sha1(b"".join(open(s, "rb").read() for s in srcs)).hexdigest()
+        base = open(os.path.join(rdir, "driver_base.ml")).read()
+        names = [n for n, _, _ in extract_fragments() if os.path.exists(os.path.join(rdir, "driver.d", n + ".ml"))]
+        units = {"registry.ml": open(os.path.join(rdir, "registry.ml")).read()}
+        order = ["registry.ml"]
+        for n in names:
+            units["m_%s.mli" % n] = open(os.path.join(gdir, "m_%s.mli" % n)).read()
+            units["m_%s.ml" % n] = open(os.path.join(gdir, "m_%s.ml" % n)).read()
+            units["drv_%s.ml" % n] = ("open M_%s\n" % n) + base + ("\n(* ---- driver.d/%s.ml ---- *)\n" % n) + \
+                open(os.path.join(rdir, "driver.d", n + ".ml")).read()
+            order += ["m_%s.mli" % n, "m_%s.ml" % n, "drv_%s.ml" % n]
+        units["main.ml"] = open(os.path.join(rdir, "driver_main.ml")).read()
+        order.append("main.ml")
+        stamp = hashlib.sha1("".join(k + units[k] for k in order).encode()).hexdigest()
         sf = os.path.join(bdir, "stamp")
         if os.path.exists(exe) and os.path.exists(sf) and open(sf).read() == stamp:
             return exe, ""
-        for s in srcs[:2]:
-            shutil.copy(s, bdir)
-        rc, out2 = sh("ocamlfind ocamlopt -O2 -w -a -package str model.mli model.ml driver.ml -linkpkg -o modelrun 2>&1 || "
-                      "ocamlfind ocamlopt -w -a -package str model.mli model.ml driver.ml -linkpkg -o modelrun",
-                      cwd=bdir, timeout=900)
+        for k in order:
+            write_if_changed(os.path.join(bdir, k), units[k])
+        rc, out2 = sh("ocamlfind ocamlopt -O2 -w -a -package str %s -linkpkg -o modelrun 2>/dev/null || "
+                      "ocamlfind ocamlopt -w -a -package str %s -linkpkg -o modelrun" % (" ".join(order), " ".join(order)),
+                      cwd=bdir, timeout=1500)
         if rc:
             return None, out2
         open(sf, "w").write(stamp)
